@@ -145,6 +145,8 @@ def build_robot(spec):
             tracked.append((cname, r["attr"]))
         for s in c.get("sentinels", ()):
             tracked.append((cname, s["attr"]))
+        for a in c.get("inject", ()):
+            tracked.append((cname, a))          # injected variables: the component may re-bind them, the reset must not undo that
         if c.get("same_class_as"):
             continue
         shared = any(o.get("same_class_as") == cname for o in spec["components"].values())
